@@ -98,6 +98,16 @@ def uniquePos : List LutRow → Bool
   | [] => true
   | r :: rest => rest.all (fun s => !(decide (s.rp = r.rp) && decide (s.cp = r.cp) && decide (s.ch = r.ch))) && uniquePos rest
 
+/-- the list of copy instructions `_iterate_indices_for_tiled_region` yields for a standardised region
+`[r0, r1) × [c0, c1)` (1-based) over the table rows `rows` -/
+def regionInstrs (rows : List LutRow) (r0 r1 c0 c1 th tw : Int) : Except ErrKind (List Instr) :=
+  ((rows.filter (selected r0 r1 c0 c1 th tw)).mergeSort lutLe).mapM (instrOf r0 r1 c0 c1 th tw)
+
+/-- instruction `ins` writes output pixel `(i, j)` -/
+def writes (ins : Instr) (i j : Int) : Prop := ins.o0 ≤ i ∧ i < ins.o1 ∧ ins.p0 ≤ j ∧ j < ins.p1
+
+instance (ins : Instr) (i j : Int) : Decidable (writes ins i j) := by unfold writes; infer_instance
+
 /-- the copy loop of `_get_pixels_by_frame` / `_get_pixels_by_seg_frame` over the selected rows -/
 def copyLoop {α} (frames : List (Img α)) (rs re cs ce th tw : Int) (oh ow : Int) :
     List LutRow → Img α → Except ErrKind (Img α)
@@ -113,26 +123,35 @@ def copyLoop {α} (frames : List (Img α)) (rs re cs ce th tw : Int) (oh ow : In
         | .error e => .error e
         | .ok out' => copyLoop frames rs re cs ce th tw oh ow rest out'
 
+/-- the rows of the table a query for channel `chan` can match (`none`: no channel query) -/
+def chanRows (chan : Option Int) (lut : List LutRow) : List LutRow :=
+  match chan with
+  | none => lut
+  | some c => lut.filter (fun r => r.ch = c)
+
+/-- the uniqueness test on the columns used by the query: (row, column) or (row, column, channel) -/
+def uniqueKey (chan : Option Int) (lut : List LutRow) : Bool :=
+  match chan with
+  | none => uniquePos (lut.map (fun r => { r with ch := 0 }))
+  | some _ => uniquePos lut
+
 /-- A region of the total pixel matrix for one channel.
 
 `lut`, `frames`: the image; `rows`/`cols`: TotalPixelMatrixRows/Columns; `th`/`tw`: Rows/Columns of a frame;
 `chan = none`: no channel query (`Image.get_total_pixel_matrix`), `some c`: the rows of channel `c`
 (one entry of `channel_indices`); `full`: DimensionOrganizationType is TILED_FULL; `allowMissing`:
-`allow_missing_combinations`.  Result: output shape and array (1-based standardised bounds inside). -/
+`allow_missing_combinations`.  Result: output shape and array. -/
 def readRegion {α} (z : α) (lut : List LutRow) (frames : List (Img α)) (rows cols th tw : Int)
     (chan : Option Int) (rs re cs ce : Option Int) (asIdx full allowMissing : Bool) :
     Except ErrKind (Int × Int × Img α) :=
-  let lut' := match chan with
-    | none => lut
-    | some c => lut.filter (fun r => r.ch = c)
-  if !(uniquePos (match chan with | none => lut.map (fun r => { r with ch := 0 }) | some _ => lut)) then .error .runtime else
+  if !(uniqueKey chan lut) then .error .runtime else
   match stdRowColIndices rs re cs ce rows cols asIdx false with
   | .error e => .error e
   | .ok (r0, r1, c0, c1) =>
     match expectedCount r0 r1 c0 c1 th tw with
     | .error e => .error e
     | .ok cnt =>
-      let sel := (lut'.filter (selected r0 r1 c0 c1 th tw)).mergeSort lutLe
+      let sel := ((chanRows chan lut).filter (selected r0 r1 c0 c1 th tw)).mergeSort lutLe
       if !allowMissing && !full && (sel.length : Int) ≠ cnt then .error .runtime else
       let oh := r1 - r0
       let ow := c1 - c0
